@@ -119,17 +119,12 @@ pub fn reconcile(a: &FpMap, b: &FpMap, base: &FpMap, trust_base: bool) -> Vec<(P
     paths.dedup();
     let mut out = Vec::new();
     for p in paths {
-        let (av, bv) = (a.get(p), b.get(p));
-        let z = if trust_base { base.get(p) } else { None };
-        // Hot path on big trees: the overwhelming majority of paths are untouched
-        // on both sides since the last sync (blake3 is the sole oracle), so skip
-        // the case analysis for them instead of computing a Noop and dropping it.
-        if let (Some(x), Some(y), Some(w)) = (av, bv, z) {
-            if x.blake3 == w.blake3 && y.blake3 == w.blake3 {
-                continue;
-            }
-        }
-        let act = reconcile_path(av.copied(), bv.copied(), z.copied());
+        let z = if trust_base {
+            base.get(p).copied()
+        } else {
+            None
+        };
+        let act = reconcile_path(a.get(p).copied(), b.get(p).copied(), z);
         if act != Action::Noop {
             out.push((p.clone(), act));
         }
